@@ -5,6 +5,7 @@ import IrefVerif.Findings
 import IrefVerif.Lemmas.ResolveEmpty
 import IrefVerif.Lemmas.ResolveAuth
 import IrefVerif.Lemmas.ResolveRel
+import IrefVerif.Lemmas.ResolveTotal
 import IrefVerif.Lemmas.IriBytes
 import IrefVerif.Props.Valid
 import IrefVerif.Lemmas.ValidWF
@@ -168,6 +169,31 @@ theorem iri_resolve_relative_reference (base r ab : Text) (hb8 : ∀ c ∈ base,
     Model.Ref.resolve r base = some (recompose (resolveSpec base r)) :=
   resolve_relative_reference iriGB iriGB_ok iriGB_okPath base r ab (Valid.iri_octets base hb8 hb)
     (Valid.iriRef_octets r hr8 hr) hs hab hf
+
+/-- **totality and validity, every branch, no side condition**: for every valid base and every
+valid reference the model of `resolve` never panics and returns a valid *full* URI/IRI (the base
+is unchanged: the model is a pure function of its arguments) -/
+theorem resolve_total_valid (G : Grammar) (ok : Grammar.Ok G) (okp : Grammar.OkPath G) (base r : Text)
+    (hb : RE.Matches G.full base) (hr : RE.Matches G.reference r) :
+    ∃ t, Model.Ref.resolve r base = some t ∧ RE.Matches G.full t :=
+  Lemmas.resolve_total G ok okp base r hb hr
+
+/-- closed loop, URI family: an accepted `Uri` base, an accepted `UriRef` — the result is an
+accepted `Uri` -/
+theorem uri_resolve_accepted (base r : Text) (hb8 : ∀ c ∈ base, c < 256) (hr8 : ∀ c ∈ r, c < 256)
+    (hb : accepts .uri base = true) (hr : accepts .uriRef r = true) :
+    ∃ t, Model.Ref.resolve r base = some t ∧ accepts .uri t = true := by
+  obtain ⟨t, e, hv⟩ := resolve_total_valid uriG uriG_ok uriG_okPath base r (Valid.uri_octets base hb8 hb)
+    (Valid.uriRef_octets r hr8 hr)
+  exact ⟨t, e, Valid.uri_of_octets t hv⟩
+
+/-- … IRI family -/
+theorem iri_resolve_accepted (base r : Text) (hb8 : ∀ c ∈ base, c < 256) (hr8 : ∀ c ∈ r, c < 256)
+    (hb : accepts .iri base = true) (hr : accepts .iriRef r = true) :
+    ∃ t, Model.Ref.resolve r base = some t ∧ accepts .iri t = true := by
+  obtain ⟨t, e, hv⟩ := resolve_total_valid iriGB iriGB_ok iriGB_okPath base r (Valid.iri_octets base hb8 hb)
+    (Valid.iriRef_octets r hr8 hr)
+  exact ⟨t, e, Valid.iri_of_octets t hv⟩
 
 /-- the hypotheses are satisfiable: RFC 3986 §5.4 base and `../g` are outside the F15 class -/
 example : Findings.f15 base54' [0x2E,0x2E,0x2F,0x67] = false := by decide
